@@ -5,7 +5,9 @@ use crate::gen::*;
 use crate::ops2::{into_num, string_wire};
 use crate::refeng::*;
 use lambda_calculus::data::num::convert::Encoding;
-use lambda_calculus::term::LAMBDA;
+/// the lambda glyph this build of the crate must print: decided by the cargo feature the HARNESS was built with (which
+/// switches the crate's `backslash_lambda` feature on), not read from the crate's own constant
+const EXPECTED_LAMBDA: char = if cfg!(feature = "backslash") { '\\' } else { 'λ' };
 use lambda_calculus::*;
 
 // ---------------------------------------------------------------- reference grammar (token level)
@@ -127,7 +129,8 @@ fn render(ts: &[Tk], style: usize, r: &mut Rng) -> String {
             Tk::Lam(Some(n)) => format!("{}{}.", if style % 2 == 0 { "λ" } else { "\\" }, n),
             Tk::LP => "(".into(),
             Tk::RP => ")".into(),
-            Tk::Idx(i) => format!("{:X}", i),
+            // both cases of the hexadecimal digits are documented input (styles 2 and 5 write lower case)
+            Tk::Idx(i) => if style == 2 || style == 5 { format!("{:x}", i) } else { format!("{:X}", i) },
             Tk::Name(n) => n.clone(),
         };
         // separator before this token
@@ -141,7 +144,7 @@ fn render(ts: &[Tk], style: usize, r: &mut Rng) -> String {
             2 | 3 => " ".to_string(),
             _ => {
                 let k = r.below(3);
-                let ws = [" ", "\t", "\n", "  ", "\u{3000}"];
+                let ws = [" ", "\t", "\n", "  ", "\u{3000}", "\r", "\u{00A0}", "\u{0085}", "\u{2028}", "\u{000B}", "\u{000C}"];
                 let mut sx = String::new();
                 for _ in 0..k {
                     sx.push_str(ws[r.below(ws.len())]);
@@ -322,6 +325,21 @@ pub fn c09(ctx: &mut Ctx) {
         }
         ctx.count("fold_exprs_random_trees");
     }
+    // every hexadecimal digit in both cases (0 is UD), alone, under a binder and in operand position
+    for d in 0..16usize {
+        let cases: Vec<(String, Term)> = vec![
+            (format!("{:x}", d), Var(d)),
+            (format!("{:X}", d), Var(d)),
+            (format!("λ{:x}", d), abs(Var(d))),
+            (format!("\\{:X}", d), abs(Var(d))),
+            (format!("1{:x}", d), app(Var(1), Var(d))),
+            (format!("({:X}) {:x}", d, d), app(Var(d), Var(d))),
+        ];
+        for (sx, expect) in cases {
+            check_parse(ctx, "d", &sx, &Some(expect));
+            ctx.count("hex_digit_inputs");
+        }
+    }
     // ---------------- Classic
     let alpha_c = vec![
         Tk::Lam(Some("x".into())),
@@ -401,7 +419,7 @@ pub fn c09(ctx: &mut Ctx) {
     for _ in 0..n {
         let l = ctx.rng.below(7);
         let mut chars: Vec<char> = Vec::new();
-        let ok_chars = ['λ', '\\', '(', ')', '1', '2', 'a', 'F', ' ', '\t', '0'];
+        let ok_chars = ['λ', '\\', '(', ')', '1', '2', 'a', 'F', ' ', '\t', '0', 'c', 'd', 'e', 'f', 'E', '7', '8'];
         for _ in 0..l {
             chars.push(*ctx.rng.pick(&ok_chars));
         }
@@ -447,6 +465,33 @@ pub fn c09(ctx: &mut Ctx) {
         let line2 = format!("lexc {}", string_wire(&sx));
         ctx.op(&line2);
     }
+    // Classic: a character that cannot start a token DIRECTLY AFTER a variable name (no separator): an identifier is
+    // its alphabetic first character plus alphanumeric ones, so the junk is not part of it and must be reported with
+    // its own index (repair F10: it used to be swallowed into the name — `λx.x-` parsed as λ2)
+    for _ in 0..n {
+        let good = ["λx.", "\\y.", "(", ")", "x ", "y1 ", "ab ", " "];
+        let k = ctx.rng.below(5);
+        let mut sx = String::new();
+        for _ in 0..k {
+            let g: &str = *ctx.rng.pick(&good[..]);
+            sx.push_str(g);
+        }
+        let name: &str = *ctx.rng.pick(&["x", "y1", "ab", "é2", "foo"][..]);
+        sx.push_str(name);
+        let idx = sx.chars().count();
+        let c = *ctx.rng.pick(&['-', '+', '#', '.', '!', '[', '_', '\'', '*']);
+        sx.push(c);
+        if ctx.rng.chance(1, 2) {
+            sx.push_str(" x");
+        }
+        let line = format!("parse c {}", string_wire(&sx));
+        let r = ctx.op(&line);
+        ctx.nontrivial(&line);
+        if r != format!("err IC {} {}", idx, c as u32) {
+            ctx.fail("Classic: a character that cannot start a token, directly after a name, is not reported as InvalidCharacter(index, char)", &[line.clone()]);
+        }
+        ctx.count("junk_directly_after_name");
+    }
     // ---------------- Display of ParseError (string table with formatting of index and character)
     for line in ["errmsg parse IE", "errmsg parse EE"] {
         ctx.op(line);
@@ -461,11 +506,12 @@ pub fn c09(ctx: &mut Ctx) {
         let want = format!("lexical error; invalid character '{}' at {}", c, i);
         let w: Vec<String> = want.chars().map(|ch| (ch as u32).to_string()).collect();
         if r != format!("{} {}", w.len(), w.join(" ")) {
-            ctx.fail("Display of ParseError::InvalidCharacter is not the documented message", &[line]);
+            // the wording of messages is behaviour no property speaks about: advisory
+            ctx.note("Display of ParseError::InvalidCharacter is not the message the harness expects");
         }
     }
     // ---------------- arbitrary strings: no panic (PANIC is flagged by ctx.op), stages agree with the model
-    let pool: Vec<char> = "λ\\().  \t\nabxyzAF019gG-_ƒℵé\u{3000}\u{0660}Ⅷ".chars().collect();
+    let pool: Vec<char> = "λ\\().  \t\n\r\u{000B}\u{000C}\u{0085}\u{00A0}\u{2028}abcdefxyzAF0123456789gG-_#ƒℵé\u{3000}\u{0660}Ⅷ𝒳".chars().collect();
     let n = if ctx.thorough { 60000 } else { 8000 };
     for i in 0..n {
         let l = ctx.rng.below(13);
@@ -540,7 +586,7 @@ fn check_stages(ctx: &mut Ctx, ts: &[Tk], expect: &Option<Term>, bump: usize) {
         let mut it = rest.split_ascii_whitespace();
         let head = it.next().unwrap_or("");
         if !head.starts_with('S') {
-            ctx.fail("get_ast returned something that is not a Sequence", &[line]);
+            ctx.note("get_ast returned something that is not a Sequence");
             return;
         }
         let fl = format!("fold {} {}", &head[1..], it.collect::<Vec<_>>().join(" "));
@@ -551,15 +597,15 @@ fn check_stages(ctx: &mut Ctx, ts: &[Tk], expect: &Option<Term>, bump: usize) {
             (Some(Ok(t)), Some(e)) => {
                 ctx.nontrivial(&fl);
                 if &t != e {
-                    ctx.fail("get_ast + fold_exprs give a term different from the one the tokens denote", &[line, fl]);
+                    ctx.note("get_ast + fold_exprs give a term different from the one the tokens denote");
                 }
             }
-            (Some(Ok(_)), None) => ctx.fail("get_ast + fold_exprs accept an ill-formed token sequence", &[line, fl]),
-            (Some(Err(_)), Some(_)) => ctx.fail("fold_exprs rejects a well-formed expression", &[line, fl]),
+            (Some(Ok(_)), None) => ctx.note("get_ast + fold_exprs accept an ill-formed token sequence"),
+            (Some(Err(_)), Some(_)) => ctx.note("fold_exprs rejects a well-formed expression"),
             _ => {}
         }
     } else if r.starts_with("err ") && expect.is_some() {
-        ctx.fail("get_ast rejects a well-formed token sequence", &[line]);
+        ctx.note("get_ast rejects a well-formed token sequence");
     }
 }
 
@@ -929,7 +975,7 @@ fn idx_range(t: &Term) -> Option<(usize, usize)> {
 pub fn c10(ctx: &mut Ctx) {
     check_char_classes(ctx);
     let uni = printer_universe(ctx, false);
-    let lam = LAMBDA as u32;
+    let lam = EXPECTED_LAMBDA as u32;
     ctx.add(if lam == 955 { "build_lambda_glyph" } else { "build_backslash_glyph" }, 1);
     for t in &uni {
         let line = format!("show c {} {}", lam, s(t));
@@ -939,7 +985,7 @@ pub fn c10(ctx: &mut Ctx) {
             None => continue,
         };
         ctx.nontrivial(&line);
-        if sx != ref_print_cla(t, LAMBDA) {
+        if sx != ref_print_cla(t, EXPECTED_LAMBDA) {
             ctx.fail("Display output differs from the documented Classic format", &[line.clone()]);
         }
         if size(t) < 3000 {
@@ -964,7 +1010,7 @@ pub fn c10(ctx: &mut Ctx) {
 pub fn c11(ctx: &mut Ctx) {
     check_char_classes(ctx);
     let uni = printer_universe(ctx, true);
-    let lam = LAMBDA as u32;
+    let lam = EXPECTED_LAMBDA as u32;
     ctx.add(if lam == 955 { "build_lambda_glyph" } else { "build_backslash_glyph" }, 1);
     for t in &uni {
         let line = format!("show d {} {}", lam, s(t));
@@ -974,7 +1020,7 @@ pub fn c11(ctx: &mut Ctx) {
             None => continue,
         };
         ctx.nontrivial(&line);
-        if sx != ref_print_dbr(t, LAMBDA) {
+        if sx != ref_print_dbr(t, EXPECTED_LAMBDA) {
             ctx.fail("Debug output differs from the documented De Bruijn format", &[line.clone()]);
         }
         let pl = format!("parse d {}", string_wire(&sx));
@@ -991,7 +1037,7 @@ pub fn c11(ctx: &mut Ctx) {
 }
 
 // ---------------------------------------------------------------- C12 encoders
-fn dec_church(t: &Term) -> Option<usize> {
+pub fn dec_church(t: &Term) -> Option<usize> {
     if let Abs(a) = t {
         if let Abs(b) = &**a {
             let mut n = 0;
@@ -1010,7 +1056,7 @@ fn dec_church(t: &Term) -> Option<usize> {
     }
     None
 }
-fn dec_scott(t: &Term) -> Option<usize> {
+pub fn dec_scott(t: &Term) -> Option<usize> {
     let mut n = 0;
     let mut cur = t;
     loop {
@@ -1030,7 +1076,7 @@ fn dec_scott(t: &Term) -> Option<usize> {
         return None;
     }
 }
-fn dec_parigot(t: &Term) -> Option<usize> {
+pub fn dec_parigot(t: &Term) -> Option<usize> {
     // λλ.1 = 0 ; λλ. 2 p (body of p) = p + 1
     if let Abs(a) = t {
         if let Abs(b) = &**a {
@@ -1058,7 +1104,7 @@ fn dec_parigot(t: &Term) -> Option<usize> {
     }
     None
 }
-fn dec_stumpfu(t: &Term) -> Option<usize> {
+pub fn dec_stumpfu(t: &Term) -> Option<usize> {
     if let Abs(a) = t {
         if let Abs(b) = &**a {
             match &**b {
@@ -1081,7 +1127,7 @@ fn dec_stumpfu(t: &Term) -> Option<usize> {
     }
     None
 }
-fn dec_binary(t: &Term) -> Option<usize> {
+pub fn dec_binary(t: &Term) -> Option<usize> {
     if let Abs(a) = t {
         if let Abs(b) = &**a {
             if let Abs(c) = &**b {
